@@ -5,6 +5,7 @@ INVARIANT LookAheadIsInvisible
 INVARIANT MessagesOnce
 INVARIANT SwitchAwayAndBack
 INVARIANT OthersUntouched
+INVARIANT EvalLeavesTheStoryAlone
 INVARIANT SaveLoadIdentity
 INVARIANT ResetIsInitial
 INVARIANT RefusedIsNoOp
